@@ -122,8 +122,56 @@ class C01Spec(ModelSpec):
                 yield ({"kind": "witness", "op": op[0], "what": "witness pid lost its binding"}, {"call": list(op)})
 
 
+def _short_writes(case):
+    """Environment answer 'short write': every raw write(2) of the call, in turn, transfers only half of its
+    buffer.  A store that reports success must still retrieve the exact bytes with the true size."""
+    from .. import env, engine_f, fscen
+    op, state = case
+    c = fscen.ctx()
+    root = os.path.join(common.scratch(), "c01-short")
+    init = fscen.init_tree(state)
+    env.install()
+    base = engine_f.run_call(root, init, fscen.P, op, c)
+    res = []
+    n = 0
+    for i, sop in enumerate(base.sites):
+        if sop[0] != "write" or sop[1] != "write":
+            continue
+        r = engine_f.run_call(root, init, fscen.P, op, c, fault=(i, "SHORT", False))
+        if not r.injected:
+            continue
+        n += 1
+        if r.outcome[0] != "ok":
+            continue  # raising is acceptable
+        env.set_root(root)
+        errs = []
+        if op[0] == "store":
+            data = c.inputs.data[op[2]]
+            if r.outcome[1][1] != len(data):
+                errs.append("store_object reported size %d for %d bytes after a short write" % (r.outcome[1][1], len(data)))
+            got = O.run(r.store, ("retrieve", op[1]), c)
+            if got[0] != "ok" or got[1] != data:
+                errs.append("store_object reported success after a short write but retrieve_object does not return the bytes")
+        else:
+            data = c.docs.data[op[3]]
+            got = O.run(r.store, ("retrieve_meta", op[1], op[2]), c)
+            if got[0] != "ok" or got[1] != data:
+                errs.append("store_metadata reported success after a short write but the document is not the bytes supplied")
+        for e in errs:
+            res.append(({"kind": "short-write", "part": "environment", "what": e, "call": op[0]},
+                        {"call": list(op), "state": state, "site": i, "site_op": list(sop)}))
+    return n, res
+
+
 def main(tier):
     rep = common.Report("C01", tier, "model_checking")
+    nshort = 0
+    for cnt, res in pmap(_short_writes, [(("store", "p", "L", None), "q=B"), (("store", "p", "A", None), "q=A"),
+                                         (("store", "p", "O", None), "empty"), (("store_meta", "p", None, "v2"), "q=B")]):
+        nshort += cnt
+        for sig, det in res:
+            rep.violation(sig, det)
+    rep.coverage["short_write_runs"] = nshort
     algos = list(STORE_ALGOS) if tier == "thorough" else ["SHA-256", "MD5"]
     sz = sizes()
     tasks = [(a, sz[i::4]) for a in algos for i in range(4)]
